@@ -104,8 +104,12 @@ def main():
 
     # ---- 3. the property's relation on the real code ------------------------------------
     oracles.register_history(prop, R.get("history_components", R.get("components", [])))
+    if R.get("jacobian_components"):
+        oracles.register_jacobian(prop, R["jacobian_components"])
     n_or = R.get("oracle_cases", {}).get(args.tier, 6 if args.tier == "quick" else 40)
-    if problems:
+    # broken correspondences that are exactly a listed known finding do not trigger the intensified search
+    _, _, unexplained, _ = findings.process(prop, [], problems)
+    if unexplained:
         n_or = max(n_or * 4, 40)     # search harder when something no longer checks
     rel_checked = 0
     for name, f in oracles.ORACLES.get(prop, []):
@@ -215,6 +219,8 @@ def replay(prop, path, core, oracles, findings):
         from . import registry
         R = registry.PROPS[prop]
         oracles.register_history(prop, R.get("history_components", R.get("components", [])))
+        if R.get("jacobian_components"):
+            oracles.register_jacobian(prop, R["jacobian_components"])
         for name, f in oracles.ORACLES.get(prop, []):
             if name == f0["oracle"]:
                 oracles.CURRENT_K = int(keys[-1])
